@@ -2,6 +2,7 @@ package an
 
 import (
 	"go/ast"
+	"go/constant"
 	"go/token"
 	"go/types"
 	"strings"
@@ -288,28 +289,137 @@ var surveySweeps = []sweepSpec{
 func limitBeforeStart(p *Prog, r *Report, R string) {
 	r.Describe(R, "every connection is given the endpoint's receive limit before it is handed to the handshaker (Start): the first frame is already judged by it")
 	n := 0
+	check := func(fn *ssa.Function, v ssa.Value, at ssa.Instruction) {
+		n++
+		ok := p.setsLimitOn(v, at, 0)
+		r.Check(ok, R, p.FuncName(fn)+"/start", p.InstrPos(at), "the receive limit is applied before Start", "the connection is handed to the handshaker before the endpoint's receive limit is applied to it: it can be attached and its first frames read with no limit (an oversize frame is allocated and delivered), and the late SetOption races with the receiver")
+	}
 	for _, fn := range p.Funcs {
 		rel, ok := Rel(fn.Pkg.Pkg.Path())
 		if !ok || !strings.HasPrefix(rel, "transport/") || strings.HasSuffix(p.Fset.Position(fn.Pos()).Filename, "_test.go") {
 			continue
 		}
-		evs := append(append([]*Ev{}, p.Events(fn)...), p.EventsDeep(fn)...)
-		for _, st := range evs {
-			if st.Kind != "call" || st.What != "Handshaker.Start" || len(st.Args) < 2 {
-				continue
+		EachInstr(fn, func(in ssa.Instruction) {
+			c := CallOf(in)
+			if c == nil || CalleeName(c) != "Handshaker.Start" || len(c.Args) < 1 {
+				return
 			}
-			if strings.HasPrefix(st.Args[1], "arg") && p.inlinable(fn) {
-				continue // a private helper given the pipe: judged where it is called
-			}
-			n++
-			ok := false
-			for _, so := range evs {
-				if so.Kind == "call" && strings.HasSuffix(so.What, ".SetOption") && len(so.Args) >= 3 && so.Args[0] == st.Args[1] && so.Args[1] == `"MAX-RCV-SIZE"` && evDominates(so, st) {
-					ok = true
+			v := stripConv(c.Args[len(c.Args)-1])
+			if par, isPar := v.(*ssa.Parameter); isPar && fn.Parent() == nil && lowerName(fn.Name()) {
+				// a private helper given the pipe: judged where it is called
+				idx := -1
+				for k, q := range fn.Params {
+					if q == par {
+						idx = k
+					}
+				}
+				node := p.CG().Nodes[fn]
+				sites := 0
+				if node != nil && idx >= 0 {
+					for _, e := range node.In {
+						if e.Site == nil || e.Site.Common().StaticCallee() != fn || idx >= len(e.Site.Common().Args) {
+							continue
+						}
+						sites++
+						check(e.Caller.Func, e.Site.Common().Args[idx], e.Site)
+					}
+				}
+				if sites > 0 {
+					return
 				}
 			}
-			r.Check(ok, R, p.FuncName(fn)+"/start", p.InstrPos(st.In), "the receive limit is applied before Start", "the connection is handed to the handshaker before the endpoint's receive limit is applied to it: it can be attached and its first frames read with no limit (an oversize frame is allocated and delivered), and the late SetOption races with the receiver")
-		}
+			check(fn, v, in)
+		})
 	}
 	r.Count("transport.handshake_starts", n)
+}
+
+func stripConv(v ssa.Value) ssa.Value {
+	for {
+		switch x := v.(type) {
+		case *ssa.ChangeInterface:
+			v = x.X
+		case *ssa.MakeInterface:
+			v = x.X
+		case *ssa.ChangeType:
+			v = x.X
+		case *ssa.TypeAssert:
+			v = x.X
+		default:
+			return v
+		}
+	}
+}
+
+func constStringIs(v ssa.Value, s string) bool {
+	c, ok := stripConv(v).(*ssa.Const)
+	return ok && c.Value != nil && c.Value.Kind() == constant.String && constant.StringVal(c.Value) == s
+}
+
+// setsLimitOn: on every path to `at`, the receive limit has been applied to the pipe v:
+// by SetOption(MAX-RCV-SIZE) on it, by a helper that does so to its parameter on all its
+// paths, or because v is the result of a helper that returns only configured pipes.
+func (p *Prog) setsLimitOn(v ssa.Value, at ssa.Instruction, depth int) bool {
+	if depth > 3 {
+		return false
+	}
+	v = stripConv(v)
+	fn := at.Parent()
+	found := false
+	EachInstr(fn, func(in ssa.Instruction) {
+		if found || in == at || !InstrDominates(in, at) {
+			return
+		}
+		c := CallOf(in)
+		if c == nil {
+			return
+		}
+		if _, isGo := in.(*ssa.Go); isGo {
+			return
+		}
+		if c.IsInvoke() {
+			if c.Method.Name() == "SetOption" && stripConv(c.Value) == v && len(c.Args) >= 1 && constStringIs(c.Args[0], "MAX-RCV-SIZE") {
+				found = true
+			}
+			return
+		}
+		sc := c.StaticCallee()
+		if sc == nil || sc.Blocks == nil || !p.moduleFunc(sc) {
+			return
+		}
+		if sc.Name() == "SetOption" && len(c.Args) >= 2 && stripConv(c.Args[0]) == v && constStringIs(c.Args[1], "MAX-RCV-SIZE") {
+			found = true
+			return
+		}
+		for k, a := range c.Args {
+			if stripConv(a) == v && k < len(sc.Params) && p.onAllReturns(sc, func(ret *ssa.Return) bool { return p.setsLimitOn(sc.Params[k], ret, depth+1) }) {
+				found = true
+			}
+		}
+	})
+	if found {
+		return true
+	}
+	// v is what a helper returned
+	if call, ok := v.(*ssa.Call); ok {
+		if sc := call.Call.StaticCallee(); sc != nil && sc.Blocks != nil && p.moduleFunc(sc) && sc.Pkg == fn.Pkg {
+			return p.onAllReturns(sc, func(ret *ssa.Return) bool {
+				return len(ret.Results) >= 1 && p.setsLimitOn(resolveSpill(ret.Results[0], ret), ret, depth+1)
+			})
+		}
+	}
+	return false
+}
+
+func (p *Prog) onAllReturns(fn *ssa.Function, pred func(*ssa.Return) bool) bool {
+	ok, n := true, 0
+	EachInstr(fn, func(in ssa.Instruction) {
+		if ret, isRet := in.(*ssa.Return); isRet && in.Block() != fn.Recover {
+			n++
+			if !pred(ret) {
+				ok = false
+			}
+		}
+	})
+	return ok && n > 0
 }
